@@ -1056,6 +1056,16 @@ impl Server {
                                     self.cleanup_state.needs_cleanup_prepare = true;
                                 }
 
+                                // The client dropped one prepared statement. If it is one of ours
+                                // (their names are not secret) the cache no longer tells the truth:
+                                // start over when the connection is checked in.
+                                "DEALLOCATE" => {
+                                    if self.prepared_statement_cache.is_some() {
+                                        debug!("Server connection marked for clean up");
+                                        self.cleanup_state.needs_cleanup_prepare = true;
+                                    }
+                                }
+
                                 // The client dropped every prepared statement of the session,
                                 // the ones we cached on this connection included.
                                 "DEALLOCATE ALL" | "DISCARD ALL" => {
